@@ -35,6 +35,7 @@ type ScenInit struct {
 	IOCells [][2]int      `json:"iocells"`
 	Pend    []int         `json:"pend"`
 	Img     []int         `json:"img"`
+	BareIO  bool          `json:"bareio"`
 	HCfg    *int          `json:"hcfg"` // bit 0: RETN handler installed, bit 1: RETI handler installed (default both)
 }
 
@@ -78,6 +79,7 @@ func (si *ScenInit) Spec() *InitSpec {
 	if is.Pend == nil {
 		is.Pend = []int{}
 	}
+	is.BareIO = si.BareIO && is.Bare && is.IO.Kind == "dumb"
 	if si.HCfg != nil {
 		is.NoHN, is.NoHI = *si.HCfg&1 == 0, *si.HCfg&2 == 0
 	}
@@ -118,6 +120,9 @@ func (m *Machine) Rebuild() {
 		}
 		m.IO = nio
 		cpu.IO = nio
+	}
+	if m.BareIO != nil {
+		cpu.IO = m.BareIO
 	}
 	if old.Interrupt != nil {
 		it := *old.Interrupt
@@ -287,7 +292,7 @@ func playScenario(sc *Scenario, w *bufio.Writer) {
 			if m.SetCon != nil {
 				m.SetCon(kind)
 			}
-			fmt.Fprintln(w, `{"e":"con"}`)
+			fmt.Fprintf(w, `{"e":"con","kind":%q}`+"\n", kind)
 		case "w":
 			m.WholeAndEmit(w)
 		case "swapmem":
